@@ -102,6 +102,7 @@ CHECKS = {
             dict(name="route", run="^TestRoute$", quick=500, thorough=4000, shards=8),
             dict(name="addmount", run="^TestAddMount$", quick=300, thorough=3000, shards=2),
             dict(name="concurrent", run="^TestConcurrentAddMount$", quick=60, thorough=400, shards=2),
+            dict(name="crossfault", run="^TestCrossFault$", quick=30, thorough=300, shards=2),
             dict(name="concurrent-race", run="^TestConcurrentAddMount$", thorough=200, shards=1, race=True, tiers=("thorough",), env={"VERIF_LEG_SUFFIX": "-race"}),
         ],
     ),
